@@ -719,3 +719,90 @@ def check_timestamp_format(ctx, rep):
             else:
                 rep.bad("T-TSFMT", "T-TSFMT:tsfmt:%s" % b.short, b.where(bi), "timestamp written with SecondsFormat %r: sub-second digits are dropped, the instant read back differs" % fmtv)
     return n
+
+
+# ---------------------------------------------------------------------- T-SEP / T-NEST: collection layout of the Zinc writer
+def check_separators(ctx, rep):
+    """every separator written inside a `for (i, x) in coll.iter().enumerate()` loop of the Zinc writer is guarded by
+    `i < coll.len() - 1` on that same collection (one separator between elements, none after the last)"""
+    prog = ctx.prog
+    n = 0
+    for b in prog.bodies.values():
+        if not b.file.endswith("encoding/zinc/encode.rs"):
+            continue
+        k = 0
+        for bi, t in b.calls():
+            nm = strip_generics(mir.callee_name(t) or "")
+            if nm != "std::io::Write::write_all":
+                continue
+            v = G.describe(b, t["args"][1])
+            is_sep = (v.kind == "conststr" and v.v in (",", " ")) or (v.kind == "place" and re.fullmatch(r"_\d+\*?", v.v) and b.rec.get("name") == "write_dict_tags")
+            if not is_sep:
+                continue
+            gs = G.guards_at(b, bi)
+            # only separators written from inside an enumerate loop
+            loops = [g for g in gs if g.a is not None and g.a.kind == "discr" and g.op == "Eq" and g.b.v == 1 and g.a.args and "Enumerate" in repr(g.a.args[0])]
+            if not loops:
+                continue
+            n += 1
+            key = "separator:%s#%d" % (b.short, k)
+            k += 1
+            it = repr(loops[-1].a.args[0])
+            ok = False
+            why = "no `i < len - 1` guard"
+            for g in gs:
+                if g.op == "Lt" and g.b is not None and g.b.kind == "binop" and g.b.v == "Sub" and len(g.b.args) == 2:
+                    ln, one = g.b.args
+                    if one.kind == "const" and one.v == 1 and ln.kind == "call" and ln.v.endswith("::len") and ln.args:
+                        coll = repr(ln.args[0])
+                        idx = repr(g.a)
+                        from rules.panic import _contains_token
+
+                        if not _contains_token(it, coll):
+                            why = "the length is of %s but the loop iterates %s" % (coll, it[:80])
+                        elif not re.search(r"as Some\.0\.0$", idx):
+                            why = "left operand %s is not the enumerate index" % idx
+                        else:
+                            ok = True
+                elif g.op in ("Le", "Lt") and g.b is not None and "len" in repr(g.b):
+                    why = "guard is %r, expected index < len - 1" % g
+            if ok:
+                rep.ok("T-SEP", key, b.where(bi), "separator written only when index < len()-1 of the iterated collection")
+            else:
+                rep.bad("T-SEP", "T-SEP:" + key, b.where(bi), "separator in %s is not written exactly between elements: %s" % (b.short.split("::")[-1], why))
+    return n
+
+
+def check_nesting_flag(ctx, rep):
+    """elements of lists, dict values and grid cells are written with InnerGrid::Yes (nested grids need << >>); only the
+    top-level entry points start with InnerGrid::No; Value::zinc_encode forwards its flag to Grid"""
+    prog = ctx.prog
+    n = 0
+    for b in prog.bodies.values():
+        if not b.file.endswith("encoding/zinc/encode.rs"):
+            continue
+        k = 0
+        for bi, t in b.calls():
+            nm = strip_generics(mir.callee_name(t) or "")
+            if not nm.endswith("ZincEncode>::zinc_encode") and nm != "haystack::encoding::zinc::encode::ZincEncode::zinc_encode":
+                continue
+            n += 1
+            flag = G.describe(b, t["args"][2])
+            key = "nesting:%s#%d" % (b.short, k)
+            k += 1
+            top = b.rec.get("name") == "to_zinc" and (b.rec.get("impl") or {}).get("self_adt") in ("haystack::val::value::Value", "haystack::val::grid::Grid")
+            fwd = b.rec.get("name") == "zinc_encode" and (b.rec.get("impl") or {}).get("self_adt") == "haystack::val::value::Value"
+            if top:
+                ok = flag.kind == "agg" and flag.v == "No"
+                exp = "No (top level)"
+            elif fwd:
+                ok = flag.kind == "place" and re.fullmatch(r"_3\*?", flag.v) is not None
+                exp = "the caller's flag"
+            else:
+                ok = flag.kind == "agg" and flag.v == "Yes"
+                exp = "Yes (nested position)"
+            if ok:
+                rep.ok("T-NEST", key, b.where(bi), "passes %s" % exp)
+            else:
+                rep.bad("T-NEST", "T-NEST:" + key, b.where(bi), "%s passes %r to zinc_encode, expected %s: a nested grid would be written without / with stray << >>" % (b.short.split("::")[-1], flag, exp))
+    return n
